@@ -1563,9 +1563,24 @@ class DynamicBase(BaseSpaceImpl):
 
     def on_namespace_change(self):
         ItemSpaceParent.on_namespace_change(self)
-        # Use dict instead of list to avoid duplicates
-        for r in {s.rootspace: True for s in self._dynamic_subs}:
-            r.del_all_itemspaces()
+        # The dynamic spaces built from this space elsewhere (children of
+        # ItemSpaces, ItemSpaces of a parent whose formula chose this base)
+        # no longer reflect it: delete the ItemSpaces they live in
+        self.clear_subs_rootitems()
+
+    def set_formula(self, formula):
+        ItemSpaceParent.set_formula(self, formula)
+        if hasattr(self, "_dynamic_subs"):  # not yet during __init__
+            self.clear_subs_rootitems()
+
+    def del_formula(self):
+        ItemSpaceParent.del_formula(self)
+        if hasattr(self, "_dynamic_subs"):
+            self.clear_subs_rootitems()
+
+    def on_delete(self):
+        self.clear_subs_rootitems()
+        BaseSpaceImpl.on_delete(self)
 
     def change_dynsub_refs(self, name):
 
